@@ -32,6 +32,13 @@ Theorem C13_sort_perm : forall l, Permutation (sort_stable l) l.
 Proof. exact sort_perm. Qed.
 Theorem C13_sort_sorted : forall l, tame_list l -> sorted (sort_stable l).
 Proof. exact sort_sorted. Qed.
+Theorem C13_sort_idempotent : forall l, tame_list l -> sort_stable (sort_stable l) = sort_stable l.
+Proof. exact sort_idempotent. Qed.
+(* min and max return members of their input that bound all others (tame inputs) *)
+Theorem C13_max_spec : forall l m, tame_list l -> vmax l = Some m -> In m l /\ forall z, In z l -> vle z m.
+Proof. exact vmax_spec. Qed.
+Theorem C13_min_spec : forall l m, tame_list l -> vmin l = Some m -> In m l /\ forall z, In z l -> vle m z.
+Proof. exact vmin_spec. Qed.
 Print Assumptions C13_sort_sorted.
 
 (* the known finding, pinned: without tameness the order is NOT transitive (witnesses computed inside Coq) *)
